@@ -226,6 +226,8 @@ def gen_c06(rng, idx, tier, faults):
     N = rng.randint(1, cap)
     p = gen_params(rng, "sample.VoronoiFPS", xs["shape"], N, "C06", faults)
     p.pop("progress_bar", None)
+    if isinstance(p.get("initialize"), int) and rng.random() < 0.12:
+        p["initialize"] = p["initialize"] - n_from  # the same point, counted from the end
     # schedule of warm-started continuations
     sched = [N]
     for _ in range(rng.choice([0, 0, 1, 2])):
